@@ -23,7 +23,7 @@ from ..templates import TemplateHooks, make_hole, to_term, show
 from ..galg import (GraphHooks, Evaluator, evaluate_set, deep_snapshot,
                     all_graphs, all_subsets, NotEvaluable, GraphError, CG,
                     g_sccs, g_reach, g_reversed, _freeze)
-from ..report import Finding, RuleResult, floor, Attempts
+from ..report import Finding, RuleResult, floor, Attempts, adopt
 
 PROP = 'C02'
 
@@ -826,7 +826,11 @@ def rule_ltl2(prog, P):
              ('F', New(al['F'], (h[0],)), None),
              ('G', New(al['G'], (h[0],)), None),
              ('R', New(al['R'], (h[0], h[1])), None),
-             ('Imply', New(al['Imply'], (h[0], h[1])), None)]
+             ('Imply', New(al['Imply'], (h[0], h[1])), None),
+             # quantified subformulas are not LTL: the closure is the only
+             # place where LTL.modelcheck(K, A(.. E ..)) is rejected
+             ('A', New(al['A'], (h[0],)), None),
+             ('E', New(prog.alphabet('CTLS.language')['E'], (h[0],)), None)]
     hooks0 = LTLHooks(prog, P.atomcls, fn)
     for (kname, phi, kids) in KS + extra:
         hooks = LTLHooks(prog, P.atomcls, fn)
@@ -907,7 +911,7 @@ def rule_ltl2(prog, P):
                     kname, gotk, wantk,
                     '' if okres else ' and does not record the formula'),
                 expected=wantk, found=gotk))
-    floor('R-LTL-2', 'kinds', len(r.instances) + len(r.findings), 15)
+    floor('R-LTL-2', 'kinds', len(r.instances) + len(r.findings), 17)
     return r
 
 
@@ -1500,11 +1504,20 @@ def _choice_eval(ev, c, sym):
     return vals.pop()
 
 
-def run(prog, tier, seed):
-    P = discover(prog)
-    T = Attempts()
-    results = T.results(*[T(fn, prog, P) for fn in (
+def own_rules(prog, tier, T):
+    """the rules about the LTL tableau procedure itself (also run by the
+    checks of the properties that rely on the LTL checker)"""
+    P = T(discover, prog)
+    if P is None:
+        T.skipped('R-LTL-0 .. R-LTL-5')
+        return []
+    return T.results(*[T(fn, prog, P) for fn in (
         rule_ltl0, rule_ltl1, rule_ltl2, rule_ltl3, rule_ltl4, rule_ltl5)])
+
+
+def run(prog, tier, seed):
+    T = Attempts()
+    results = own_rules(prog, tier, T)
     expl = ('The parts of the LTL tableau procedure are discovered from '
             'LTL.modelcheck and analysed separately: (1) the E-procedure '
             'receives the path formula under an odd number of negations and '
@@ -1526,4 +1539,12 @@ def run(prog, tier, seed):
                    'when a member is processed',
                    'graph primitives as documented (C12/C13)',
                    'formulas compare by structure (C09/C11)']
+    from . import c05, c11, c12, c13
+    adj = T(c13.adjacency_field, prog)
+    results = results + adopt(T.results(
+        T(c12.rule_scc, prog), T(c12.rule_scc6, prog),
+        T(c13.rule_g12, prog, adj, _n=2) if adj else None,
+        T(c13.rule_g3, prog, adj) if adj else None,
+        T(c05.rule_rw3, prog), T(c11.rule_eq2, prog)),
+        PROP, 'relied on by the LTL tableau procedure')
     return results, expl, assumptions, T.extra()
